@@ -4,6 +4,7 @@ Terms are generated "mostly well-sorted" so that the sort-driven mutators of
 ddSMT fire; optional damage makes them ill-formed (needed for C04).  Swarm
 style: per script a random subset of theories/features is enabled first.
 """
+import os
 
 BV_WIDTHS = [1, 4, 8, 16]
 
@@ -622,6 +623,19 @@ def gen_risky(rng, base_feats=None):
                 '(assert (= e ()))', '(assert (> (+ e ()) e))',
                 '(assert (let ((w ())) (= w w)))'
             ]))
+    if os.environ.get('DST_RISKY_FOCUS') == '14' or rng.random() < 0.08:
+        # quoted symbols whose content reads like a numeral, a constant or a
+        # reserved word: legal names, and hazardous once a mutator unquotes
+        # or shortens them
+        qn = rng.choice(['|1|', '|0|', '|_|', '|true|', '|x1|', '|v_|', '|as|'])
+        srt = rng.choice(['Int', 'Int', 'Bool', '(_ BitVec 8)'])
+        extra_decl.append(f'(declare-const {qn} {srt})')
+        extra.append({
+            'Int': rng.choice([f'(assert (> (+ {qn} 1) 0))',
+                               f'(assert (= {qn} (* 2 {qn})))']),
+            'Bool': f'(assert (or {qn} (not {qn})))',
+            '(_ BitVec 8)': f'(assert (= ((_ zero_extend 1) {qn}) (_ bv1 9)))',
+        }[srt])
     for p in picks:
         if p == 10:
             if not any('Color' in ln for ln in lines):
